@@ -12,6 +12,9 @@ CHECKS = {
  "C04": dict(cat="model_checking", tech="TLA+ FixedWidth.tla: TLC-checked lemmas + TLC validation of table-shaped traces of real VM results (8-bit exhaustive, 32-bit boundary/random) per operator x syntactic position",
    text="FixedWidth.tla defines Go's int8/uint8/int32/uint32 operators on limbs (TLC ints trap); its lemmas (range, division law, embedding of plain arithmetic, algebraic laws, fast = reference unsigned division) are checked exhaustively by TLC. One script function per (type, operator, syntactic position, constant) is compiled by the real compiler and called for all 8-bit operand pairs / 32-bit boundary and random values; the observed results and dynamic result types are validated line by line by TLC against the spec; native Go integer types calibrate it.",
    note="float64 arithmetic is not yet in the table (DESIGN.md section 7); shift counts are non-negative values of the operand type; constant<<variable excluded; trusts TLC", ref="6/C04"),
+ "C05": dict(cat="model_checking", tech="TLA+ GoExpr.tla: TLC enumerates all expression trees (<=3 operators, unary prefixes), checks Parse(Unparse(t))=t, emits expected values; each replayed on the real parser+VM; random larger expressions validated by TLC (Eval(Parse(tokens)))",
+   text="GoExpr.tla defines Go's grouping twice (Unparse with minimal parentheses and a reference precedence-climbing Parse) and TLC proves them inverse on every enumerated tree. Every well-typed tree with <=3 binary operators (and every placement of one or two unary prefixes, quick: <=2 operators) is emitted with its values under 4 environments (int32 wrap-around, short-circuit, run-time errors) and evaluated by the real parser and VM; 4-6 operator random expressions with nested prefixes and redundant parentheses are evaluated by the real code and validated by TLC.",
+   note="&^ is not tokenized by goatlang and is excluded; operand values are fixed environments; calibration against the Go toolchain on a random sample of the enumerated expressions", ref="6/C05"),
 }
 NOT_YET = {}
 def main():
